@@ -486,7 +486,15 @@ def oracle_norm(ctx, wu, case):
     b = (j.scheme, j.hostname, j.port, j.path, j.query)
     if a != b:
         ctx.fail('reparse-differs', 'components', cj, '%r: %r != %r' % (n, a, b))
-    if j.host != j.hostname_with_port or (j.host or '').endswith(':%d' % NET[i.scheme]):
+    host = j.host or ''
+    m = None if host.endswith(']') else re.search(r':([^:]*)$', host)
+    explicit = None
+    if m:
+        try:
+            explicit = int(m.group(1))
+        except ValueError:
+            explicit = -1
+    if explicit is not None and explicit in (NET[i.scheme], 0):
         ctx.fail('default-port-kept', 'url', cj, 'host part %r of %r (default port %d)' % (j.host, n, NET[i.scheme]))
 
 
